@@ -15,9 +15,16 @@ ENVIRONMENT = [
     'C library and the built-in table-driven _AES (key schedule, S-box rounds) compute FIPS-197 AES is NOT proved (external code / table '
     'arithmetic outside SMT reach); _AES.__init__/_AES.encrypt and the library e/aes_cmac enter as trusted contracts; a seeded native '
     'differential run of both back ends against each other and against the oracle is reported under `bounded`',
-    'P-256 group arithmetic (_JacobianPoint double/add, to_affine, ECDH symmetry, public-key derivation, agreement of the two EccKey classes) '
-    'is not proved: 256-bit non-linear arithmetic; proved are only the on-curve gate of the built-in EccKey.dh (with _EllipticCurve.'
-    'ecdh_shared_secret opaque) and the termination of _JacobianPoint.__mul__; the differential run covers the rest (bounded)',
+    'P-256 group arithmetic (_JacobianPoint double/add, the value of to_affine, ECDH symmetry, the value of the public key, agreement of the VALUES '
+    'of the two EccKey classes) is not proved: 256-bit non-linear arithmetic; scalar multiplication and the affine conversion are uninterpreted '
+    'functions of their operands (trusted contracts __mul__@group / to_affine@group).  Proved over them: the on-curve gate of the built-in EccKey.dh, '
+    'the termination of _JacobianPoint.__mul__, that to_affine reduces its coordinates modulo p, and the byte ENCODINGS: ecdh_shared_secret / '
+    'EccKey.dh return exactly the 32-byte big-endian x coordinate (InvalidPacketError exactly for the point at infinity), EccKey.x / .y the 32-byte '
+    'big-endian coordinates of key * G, for keys from from_private_key_bytes (big-endian scalar) and generate(); the differential run covers the rest (bounded)',
+    'pow(z, -1, p) in to_affine: modelled as "raises ValueError or returns some integer in 0..p-1"; that it never raises for the z that reach it '
+    '(p prime, z reduced and non-zero) is number theory outside the solver: the contract on to_affine lists the ValueError, to_affine@group assumes it away',
+    'secrets.randbelow(n) returns an arbitrary integer in 0..n-1 (model of the VC generator); a generated scalar 0 (probability 2**-256) gives the '
+    'point at infinity, whose published coordinates are 32 zero bytes: the encoding clauses exclude that case explicitly',
     'that the library back end rejects an off-curve point is a property of the `cryptography` package (EllipticCurvePublicNumbers.public_key): '
     'observed in the differential run only',
     'built-in AES-CMAC == RFC 4493 is proved for every message length up to the 2**52 bytes _CMAC accepts and every content, for the one '
@@ -593,19 +600,20 @@ ECC_LEMMA = dict(
 def public_key_is_encoded(key):
     d = key.private_key.key
     kx, ky = key.x, key.y
-    assert len(kx) == 32 and len(ky) == 32
-    assert implies(not public_is_infinity(d), int.from_bytes(kx, 'big') == public_xy(d)[0] and int.from_bytes(ky, 'big') == public_xy(d)[1])
+    assert len(kx) == 32 and len(ky) == 32, 'public-key-is-two-32-byte-strings'
+    assert implies(not public_is_infinity(d), int.from_bytes(kx, 'big') == public_xy(d)[0]), 'x-is-big-endian'
+    assert implies(not public_is_infinity(d), int.from_bytes(ky, 'big') == public_xy(d)[1]), 'y-is-big-endian'
 
 
 def lemma_ecc_key_from_bytes(d_bytes):
     key = cb.EccKey.from_private_key_bytes(d_bytes)
-    assert key.private_key.key == int.from_bytes(d_bytes, 'big')
+    assert key.private_key.key == int.from_bytes(d_bytes, 'big'), 'scalar-is-big-endian'
     public_key_is_encoded(key)
 
 
 def lemma_ecc_key_generated():
     key = cb.EccKey.generate()
-    assert 0 <= key.private_key.key and key.private_key.key < P256_N
+    assert 0 <= key.private_key.key and key.private_key.key < P256_N, 'scalar-below-group-order'
     public_key_is_encoded(key)
 
 
